@@ -9,7 +9,14 @@ both recomputed by a reference from summary() and the ORIGINAL model's shapes (p
 mpic_latency / ne16_latency == the library function applied once per (layer, selected precision group) on the reference counts;
 a probing CostSpec (returns 0, records the spec it is shown) must see the effective input/output feature counts under the
 PyTorch attribute names of the layer type, and pruning a producer must lower what every consumer type is shown.
+Structures: the flatten in front of the head's first Linear in every equivalent SPELLING (explicit non-negative end_dim positional /
+keyword / method / nn.Flatten(1, d + 1), explicit -1, nn.Flatten(), negative start_dim), 2D and 1D, as single-option deviations.
+Protocol 'deepcopy' (every 6th enumerated case quick / all thorough): the same assignments are explored on copy.deepcopy(model) -
+one copy taken with the evaluation options, one with the hard-sampling training options; only the copies' coefficients and modes are
+touched afterwards - while the converted model stays alive and untouched: the copy's cost must equal the exact bit-cost of the
+assignment the COPY's summary() reports, and at the end the untouched model still prices its own (initial) assignment exactly.
 """
+import copy
 import itertools
 import math
 
@@ -27,14 +34,22 @@ RULE = ('programs: sequential / depthwise / residual G_mps programs up to the de
         '(eval mode and hard training mode); per-channel without / with the 0-bit option: every per-channel arg-max pattern of one layer at a time '
         '(complete for <= 4 channels x <= 4 precisions) with the other layers on 2 fixed patterns; metrics params_bit, ops_bit (+ mpic_latency, and '
         'ne16_latency with 8-bit activations) and a probing spec; non-trivial = a configuration in which some selector is away from its initial '
-        'arg-max or some channel is pruned')
+        'arg-max or some channel is pruned; flatten spellings (GM.gen_flat: module / moduleend / torchend / kwend / methodend / methodkwend / method / '
+        'torchneg1 / negstart / negstartend x {flatlin, linlin, gaplin} x {2D, 1D}) per-layer, flatlin ones also per-channel with the 0-bit option '
+        '(thorough: all per-channel); protocol deepcopy (every 6th enumerated case quick, all thorough): the assignments are realised on deep copies '
+        '(taken once with the eval options, once with the hard-training options; afterwards only alpha / train() / eval() of the copy are used) '
+        'while the converted model stays alive and untouched')
 ASSUMPTIONS = ['the reference counts weights of the alive sub-tensor: alive output channels x alive input channels (x kernel) per layer, biases excluded as the '
                'metric documents', 'per-channel patterns are realised by tie-free representatives',
-               'known finding D8 is matched only in per-channel configurations where at least one channel of the charged layer is pruned']
+               'known finding D8 is matched only in per-channel configurations where at least one channel of the charged layer is pruned',
+               'a deep copy of an MPS model (taken before any gradient-carrying forward) is an independent MPS model: the property holds for it with '
+               'respect to its own summary(); in the deep-copy protocol the softmax options are fixed per copy (set on the model before copying) '
+               'instead of rotating per state']
 
 
 def bounds(tier):
-    return {'quick': {'G_depth': 2, 'per_channel_channels': 3, 'complete_cap': 27}, 'thorough': {'G_depth': 2, 'per_channel_channels': 4, 'complete_cap': 243}}[tier]
+    return {'quick': {'G_depth': 2, 'per_channel_channels': 3, 'complete_cap': 27, 'flatten_spellings': 10, 'deepcopy_protocol_cases': 'index % 6 == 1'},
+            'thorough': {'G_depth': 2, 'per_channel_channels': 4, 'complete_cap': 243, 'flatten_spellings': 10, 'deepcopy_protocol_cases': 'all'}}[tier]
 
 
 SEQ_PROGS = [
@@ -74,6 +89,15 @@ def cases(tier, seed):
                 out.append({'mode': 'channel', 'prog': prog, 'a': list(a), 'w': list(w), 'tier': tier})
         for w in ((2, 4, 8), (0, 2, 8)):
             out.append({'mode': 'channel', 'prog': dict(prog, dim=1, size=8), 'a': [4, 8], 'w': list(w), 'tier': tier})
+    # spellings of the flatten in front of the first Linear (single-option deviations)
+    for p in GM.gen_flat():
+        out.append({'mode': 'layer', 'prog': p, 'a': [2, 4, 8], 'w': [4, 2, 8], 'tier': tier})
+        if p['head'] == 'flatlin' or tier == 'thorough':
+            out.append({'mode': 'channel', 'prog': p, 'a': [8], 'w': [0, 2, 8], 'tier': tier})
+    # protocol 'deepcopy': the assignments explored on deep copies of the converted model (rotating over the enumerated cases)
+    for j, c in enumerate(list(out)):
+        if tier == 'thorough' or j % 6 == 1:
+            out.append(dict(c, proto='deepcopy'))
     return out
 
 
@@ -280,8 +304,19 @@ def run_case(case, seed):
     base_case = {k: v for k, v in case.items() if k != 'only'}
     cur = [None]
 
+    proto = case.get('proto')
+
     def add(kind, sig, msg):
         res['outcomes'].add(kind)
+        # the signature names the new structure (flatten spelling) / protocol (deep copy); the listed finding D8 is the same defect
+        # whatever the spelling and on a copy as well: its signature is kept
+        if not sig.endswith('/per-channel-with-pruned-channels'):
+            if prog.get('flat'):
+                sig += '/flatten-' + prog['flat']
+            if proto:
+                sig += '/on-' + proto
+        if proto == 'deepcopy':
+            msg = '[on copy.deepcopy(model), the model itself alive and untouched] ' + msg
         res['violations'].append({'kind': kind, 'sig': sig, 'msg': f'{mode} a={a} w={w} {_shape_sig(prog)}: {msg}', 'case': dict(base_case, only=cur[0])})
 
     from plinio.cost import params_bit, ops_bit
@@ -301,6 +336,27 @@ def run_case(case, seed):
         return res
     sels = GM.selectors(nas)
     only = case.get('only')
+    if proto == 'deepcopy':
+        # the assignments are realised on deep copies; the converted model `orig` stays alive and is not touched after the copies
+        # were taken (the softmax options of a copy are those the model had when it was copied: they rotate per case, not per state)
+        if only is not None and only.get('final'):
+            only = None       # the end-of-exploration oracle replays the whole case
+        orig = nas
+        copies = {}
+        rot = len(a) + 2 * len(w) + len(prog['stages'])
+        orig_alpha0 = [m.alpha.detach().clone() for _, m in sels]
+
+        def get_copy(train_hard):
+            if train_hard not in copies:
+                if train_hard:
+                    orig.train()
+                    orig.update_softmax_options(temperature=1.0, hard=True, gumbel=False, disable_sampling=False)
+                else:
+                    orig.eval()
+                    orig.update_softmax_options(temperature=(1.0, 0.05, 20.0)[rot % 3], hard=False, gumbel=(rot // 3) % 2 == 1, disable_sampling=False)
+                c = copy.deepcopy(orig)
+                copies[train_hard] = (c, GM.selectors(c))
+            return copies[train_hard]
     if mode == 'layer':
         sweep_quick = case.get('sweep') and tier == 'quick'
         assigns, complete, init = enum_assignments(sels, 0 if sweep_quick else b['complete_cap'], 1)
@@ -335,6 +391,8 @@ def run_case(case, seed):
         if only is not None and only != label:
             continue
         cur[0] = label
+        if proto == 'deepcopy':
+            nas, sels = get_copy(label['train_hard'])
         with torch.no_grad():
             if mode == 'layer' and 'tie' in label:
                 for _, m in sels:
@@ -364,7 +422,9 @@ def run_case(case, seed):
                             cols = [P - 1] * C if label['base'] == 'init' else [(c + 1) % P for c in range(C)]
                         m.alpha.copy_(torch.stack([_reps(P, cols[c])[c % 3] for c in range(C)], dim=1))
                 moved = 1
-        if label['train_hard']:
+        if proto == 'deepcopy':
+            nas.train(label['train_hard'])
+        elif label['train_hard']:
             nas.train()
             nas.update_softmax_options(temperature=1.0, hard=True, gumbel=False, disable_sampling=False)
         else:
@@ -384,9 +444,27 @@ def run_case(case, seed):
             add('cost-raises', 'cost-raises/' + mode, f'{label}: {type(e).__name__}: {str(e)[:200]} {traceback.format_exc()[-300:]}')
             continue
         res['outcomes'].add('checked')
-        res['nontrivial'].append(_key(prog, a, w, mode, label))
+        res['nontrivial'].append(_key(prog, a, w, mode + ('/' + proto if proto else ''), label))
+    if proto == 'deepcopy' and only is None:
+        # the model the copies were taken from: coefficients untouched, and it still prices its own assignment exactly
+        cur[0] = {'final': True}
+        res['states'] += 1
+        res['evals'] += 1
+        osels = GM.selectors(orig)
+        moved = [n for (n, m), a0 in zip(osels, orig_alpha0) if not torch.equal(m.alpha.detach(), a0)]
+        if moved:
+            add('other-model-changed', 'other-model-changed/alpha', f'exploring the deep copies changed the coefficients of the model they were copied from: {moved[:3]}')
+        try:
+            orig.eval()
+            with torch.no_grad():
+                orig(x)
+                _check(orig, x, prog, info, model, record, spec, 'the model the copies were taken from, after their exploration', add, mode == 'channel' and 0 in w)
+        except Exception as e:
+            add('cost-raises', 'cost-raises/' + mode, f'the model the copies were taken from: {type(e).__name__}: {str(e)[:200]}')
     res['outcomes'] = sorted(res['outcomes'])
     res['sample'] = {'mode': mode, 'prog': prog, 'a': a, 'w': w, 'selectors': [n for n, _ in sels], 'n_configs': len(todo), 'last': todo[-1] if todo else None}
+    if proto:
+        res['sample']['proto'] = proto
     return res
 
 
@@ -398,4 +476,4 @@ def _key(prog, a, w, mode, label):
 
 def _shape_sig(prog):
     ops = '+'.join(s['op'] + ('-dw' if s.get('dw') else '') + ('-bn' if s.get('bn') else '') for s in prog['stages'])
-    return f"{ops}/{prog['head']}"
+    return f"{ops}/{prog['head']}" + (f"/flat={prog['flat']}" if prog.get('flat') else '')
